@@ -10,25 +10,30 @@ Model: `Infretis/Model/Moves.lean` (`shoot`, mirrors tis.py `shoot`, `prepare_sh
 `Infretis/Model/AddToPath.lean` (`add_to_path`, `Path.append`).
 All statements hold for order sequences, engine streams and limits of any size.
 
-FINDING (as-is code): `add_to_path` reports failure whenever `length == maxlen` even if that very
-frame crossed an interface.  Hence the real acceptance rule is `L_new + 1 ≤ maxlen`
-(`shoot_accept_iff`), not `ξ ≤ n_old/n_new`: see `shoot_threshold_counterexample`,
-`shoot_threshold_partial`, `shoot_threshold_gap`; the full statement `shoot_threshold` is proved
-for the `repaired` variant (one changed condition in `addToPathV`).
+VARIANTS.  `Variant.repaired` is the code as it is since /repo commit f955162 (`add_to_path`: `if
+path.length == path.maxlen and not success`); for it the shared model `Engine.addToPath` and
+`addToPathV .repaired` coincide (`addToPathV_repaired_eq_shared`) and the property's own threshold
+holds: `shoot_threshold : accept ↔ ξ ≤ n_old/n_new`.
+`Variant.asIs` is the code BEFORE that commit, kept as the historical record of the finding:
+`add_to_path` reported failure whenever `length == maxlen` even if that very frame crossed an
+interface, so the rule was `L_new + 1 ≤ maxlen` (`shoot_accept_iff`), not `ξ ≤ n_old/n_new`:
+`shoot_threshold_counterexample`, `shoot_threshold_partial`.  A regression to `asIs` is reported by
+the tie under the signature `C09:shoot:length-eq-maxlen-rejected`.
+The membership / draw / rejection theorems hold for both variants (they are stated for any `v`).
 -/
 namespace Infretis.C09
 open Infretis.Moves Infretis.Engine
 
-/-- the variant model of `add_to_path` is the shared model for `asIs` -/
-theorem addToPathV_asIs_eq_shared (ops : List Int) (ml : Option Nat) (x l r : Int) :
-    addToPathV .asIs ops ml x l r = addToPath ops ml x l r := addToPathV_asIs ops ml x l r
+/-- the variant model of `add_to_path` is the shared model for `repaired` (= the code) -/
+theorem addToPathV_repaired_eq_shared (ops : List Int) (ml : Option Nat) (x l r : Int) :
+    addToPathV .repaired ops ml x l r = addToPath ops ml x l r := addToPathV_repaired ops ml x l r
 
-theorem feedV_asIs_eq_shared (l r : Int) (ml : Option Nat) (s ops : List Int) (k : Nat) :
-    feedV .asIs l r ml ops s k = feed l r ml ops s k := feedV_asIs l r ml s ops k
+theorem feedV_repaired_eq_shared (l r : Int) (ml : Option Nat) (s ops : List Int) (k : Nat) :
+    feedV .repaired l r ml ops s k = feed l r ml ops s k := feedV_repaired l r ml s ops k
 
-example : addToPathV .asIs [1, 2] (some 3) 5 0 4 = addToPath [1, 2] (some 3) 5 0 4
-    ∧ (addToPath [1, 2] (some 3) 5 0 4).map (·.2.success) = some false
-    ∧ (addToPathV .repaired [1, 2] (some 3) 5 0 4).map (·.2.success) = some true := by decide
+example : addToPathV .repaired [1, 2] (some 3) 5 0 4 = addToPath [1, 2] (some 3) 5 0 4
+    ∧ (addToPath [1, 2] (some 3) 5 0 4).map (·.2.success) = some true
+    ∧ (addToPathV .asIs [1, 2] (some 3) 5 0 4).map (·.2.success) = some false := by decide
 
 /-! ### acceptance is reported exactly with status ACC -/
 
@@ -36,15 +41,15 @@ theorem accept_iff_status_acc (v : Variant) (i : ShootIn) (o : ShootOut) (h : sh
     o.accept = true ↔ o.status = .ACC := shoot_accept_status v i o h
 
 /-- a concrete accepted move and a concrete rejected one (`exIn`, evaluated in Lemmas/MovesWitness.lean) -/
-example : ∃ o, shoot .asIs exIn = .ok o ∧ o.accept = true ∧ o.status = .ACC ∧ o.trial = [-1, 3, 2, 2, 5] := by
+example : ∃ o, shoot .repaired exIn = .ok o ∧ o.accept = true ∧ o.status = .ACC ∧ o.trial = [-1, 3, 2, 2, 5] := by
   have h := exIn_eval
-  cases hs : shoot .asIs exIn with
+  cases hs : shoot .repaired exIn with
   | error e => rw [hs] at h; cases h
   | ok o => rw [hs] at h; simp only [Except.toOption, Option.some.injEq] at h; subst h; exact ⟨_, rfl, rfl, rfl, rfl⟩
 
-example : ∃ o, shoot .asIs { exIn with forw := [2, 2, 2] } = .ok o ∧ o.accept = false ∧ o.status = .FTL := by
+example : ∃ o, shoot .repaired { exIn with forw := [2, 2, 2] } = .ok o ∧ o.accept = false ∧ o.status = .FTL := by
   have h := exIn_reject_eval
-  cases hs : shoot .asIs { exIn with forw := [2, 2, 2] } with
+  cases hs : shoot .repaired { exIn with forw := [2, 2, 2] } with
   | error e => rw [hs] at h; cases h
   | ok o => rw [hs] at h; simp only [Except.toOption, Option.some.injEq] at h; subst h; exact ⟨_, rfl, rfl, rfl⟩
 
@@ -73,7 +78,7 @@ theorem shooting_point_interior (v : Variant) (i : ShootIn) (o : ShootOut) (h : 
          | (simp; omega)
          | (rcases hd _ _ (by assumption) with h1 | h1 <;> simp [h1] <;> omega))
 
-example : (shoot .asIs exIn).toOption.map (fun o => (o.draws, o.genIdx))
+example : (shoot .repaired exIn).toOption.map (fun o => (o.draws, o.genIdx))
     = some ([.integers 1 3, .random], 2) := by rw [exIn_eval]; rfl
 
 /-! ### accepted paths belong to their ensemble -/
@@ -125,7 +130,7 @@ theorem shoot_acc_member (v : Variant) (i : ShootIn) (o : ShootOut) (h : shoot v
     rw [this, List.getElem?_append_right (by simp)]
     simp
 
-example : (shoot .asIs exIn).toOption.map (·.status) = some .ACC := by rw [exIn_eval]; rfl
+example : (shoot .repaired exIn).toOption.map (·.status) = some .ACC := by rw [exIn_eval]; rfl
 
 /-- **Weight in the own ensemble.** The `sh` entry of `calc_cv_vector` for the ensemble's own interface
     `m` is `1 if m ≤ ordermax else 0` (`WF.cvVectorGo`); for an accepted path of an ensemble whose
@@ -200,7 +205,7 @@ theorem shoot_accept_iff_xi (v : Variant) (i : ShootIn)
   push_cast
   rfl
 
-/-- **The property's threshold, for the repaired `add_to_path`.** A shooting trial whose trajectories
+/-- **The property's threshold — holds for the code as it is (`repaired`).** A shooting trial whose trajectories
     reach the interfaces (and fits the absolute limit) is accepted exactly when the drawn number is at
     most `n_old / n_new`. -/
 theorem shoot_threshold (i : ShootIn)
@@ -222,7 +227,7 @@ theorem wit_reaching : ReachingTrial wit [2] [2, 2] [] [] (-1) 5 where
   hside := by decide
   hshape := wit_shape
 
-/-- **Counterexample (as-is code).** The trial of `wit` reaches both interfaces, `ξ = 0.49 ≤ 2/4 =
+/-- **Counterexample (historical: the code before /repo f955162, `asIs`).** The trial of `wit` reaches both interfaces, `ξ = 0.49 ≤ 2/4 =
     n_old/n_new`, yet the move is rejected with status `FTL`: the property's threshold is false of
     the code as it is. -/
 theorem shoot_threshold_counterexample :
@@ -255,7 +260,7 @@ theorem shoot_threshold_counterexample :
       rw [hs] at hrep; simp only [Except.toOption, Option.some.injEq] at hrep; subst hrep
       exact ⟨_, hs, rfl⟩
 
-/-- **What does hold for the as-is code.** Under the same hypotheses (absolute limit not binding):
+/-- **What did hold for the earlier (`asIs`) code.** Under the same hypotheses (absolute limit not binding):
     acceptance implies `ξ ≤ n_old/n_new`, and the trials with `ξ ≤ n_old/n_new` that are nevertheless
     rejected are exactly those with `n_old/(n_new+1) < ξ`, i.e. `⌊n_old/ξ⌋ = n_new`
     (`L_new = maxlen`, the trial fills the drawn limit exactly). -/
@@ -317,10 +322,10 @@ theorem reject_leaves_old_untouched (v : Variant) (i : ShootIn) (o : ShootOut) (
   · intro ha
     simp [hacc.1 ha]
 
-example : (runMd .asIs { exIn with forw := [2, 2, 2] }).toOption.map (fun o => (o.live, o.replaced))
+example : (runMd .repaired { exIn with forw := [2, 2, 2] }).toOption.map (fun o => (o.live, o.replaced))
     = some ([-1, 2, 2, -1], false) := by
   have h := exIn_reject_eval
-  cases hs : shoot .asIs { exIn with forw := [2, 2, 2] } with
+  cases hs : shoot .repaired { exIn with forw := [2, 2, 2] } with
   | error e => rw [hs] at h; cases h
   | ok o =>
     rw [hs] at h; simp only [Except.toOption, Option.some.injEq] at h; subst h
